@@ -3,44 +3,55 @@ import PypyrModel.Cli
 
 namespace Pypyr.Cli
 
-/-- A string argparse classifies as an argument ('A'): empty, `-`, or not starting with `-`
-    (and not `--`, not one of the option strings). -/
+/-- A string argparse classifies as an argument ('A'): empty, `-`, not starting with `-`, or
+    starting with `-` but looking like a negative number / containing a blank (and matching no
+    option or abbreviation). `Props/Lemmas/C18_Classify.lean` says which strings these are. -/
 def Plain (s : String) : Prop := classify s = .pos
 
-/-- The values of an option are written so that argparse takes them as its arguments. -/
-def Opt.Ok : Opt → Prop
-  | .groups gs => ∀ g ∈ gs, Plain g
-  | .success s => Plain s
-  | .failure s => Plain s
-  | .dir s => Plain s
-  | .logpath s => Plain s
-  | .log s => Plain s ∧ (parseNat? s).isSome
+instance : DecidablePred Plain := fun s => inferInstanceAs (Decidable (classify s = .pos))
 
 def Opt.isGroups : Opt → Bool
   | .groups _ => true
   | _ => false
 
-def Opt.toks : Opt → List Tok
-  | .groups gs => .opt .groups :: gs.map Tok.pos
-  | .success s => [.opt .success, .pos s]
-  | .failure s => [.opt .failure, .pos s]
-  | .dir s => [.opt .dir, .pos s]
-  | .log s => [.opt .log, .pos s]
-  | .logpath s => [.opt .logpath, .pos s]
+/-- An option is written so that argparse reads it as meant: separately (`flag v…`) the flag is an
+    option string or abbreviation of this option and every value is taken as an argument; joined
+    (`flag=v`) there is exactly one value and the joined string is this option with that explicit
+    argument (`classify_joined`: true whenever the flag is a long one), the value not being `--`.
+    A `--log` value is text `int()` accepts. -/
+def WOpt.Ok (w : WOpt) : Prop :=
+  (match w.joined with
+   | true => ∃ v, w.opt.values = [v] ∧ classify (w.flag ++ "=" ++ v) = .opt w.opt.name (some v) ∧ v ≠ "--"
+   | false => classify w.flag = .opt w.opt.name none ∧ ∀ v ∈ w.opt.values, Plain v) ∧
+  (∀ s, w.opt = .log s → ∃ n, parseInt s = .ok n)
 
-def optsToks (os : List Opt) : List Tok := (os.map Opt.toks).flatten
+def WOpt.toks (w : WOpt) : List Tok :=
+  match w.joined, w.opt.values with
+  | true, [v] => [.opt w.opt.name (some v)]
+  | _, vs => .opt w.opt.name none :: vs.map Tok.pos
+
+def optsToks (ws : List WOpt) : List Tok := (ws.map WOpt.toks).flatten
+
+/-- Does the option leave a greedy `--groups` match open? (Not when its value is joined.) -/
+def WOpt.opensGroups (w : WOpt) : Bool := w.opt.isGroups && !w.joined
 
 /-! ### tokenize -/
+
+theorem TokR.map_map (f g : List Tok → List Tok) (r : TokR) : (r.map f).map g = r.map (g ∘ f) := by
+  cases r <;> rfl
+
+theorem TokR.map_toks (f : List Tok → List Tok) (ts : List Tok) : (TokR.toks ts).map f = .toks (f ts) := rfl
 
 theorem plain_ne_dd {s : String} (h : Plain s) : s ≠ "--" := by
   intro e
   subst e
-  simp [Plain, classify] at h
+  have : classify "--" = .dd := by decide +kernel
+  simp [Plain, this] at h
 
-theorem tokenize_true (xs : List String) : tokenize true xs = some (xs.map Tok.pos) := by
+theorem tokenize_true (xs : List String) : tokenize true xs = .toks (xs.map Tok.pos) := by
   induction xs with
   | nil => rfl
-  | cons s rest ih => simp [tokenize, ih]
+  | cons s rest ih => simp [tokenize, ih, TokR.map]
 
 theorem tokenize_pos (s : String) (rest : List String) (h : Plain s) :
     tokenize false (s :: rest) = (tokenize false rest).map (Tok.pos s :: ·) := by
@@ -49,67 +60,60 @@ theorem tokenize_pos (s : String) (rest : List String) (h : Plain s) :
 theorem tokenize_plain_list (xs rest : List String) (h : ∀ s ∈ xs, Plain s) :
     tokenize false (xs ++ rest) = (tokenize false rest).map (xs.map Tok.pos ++ ·) := by
   induction xs with
-  | nil => simp
+  | nil =>
+    simp only [List.nil_append, List.map_nil]
+    cases tokenize false rest <;> rfl
   | cons s xs ih =>
     rw [List.cons_append, tokenize_pos _ _ (h s (by simp)), ih (fun x hx => h x (by simp [hx]))]
-    cases tokenize false rest <;> simp
+    cases tokenize false rest <;> simp [TokR.map]
 
 theorem tokenize_dd (rest : List String) :
-    tokenize false ("--" :: rest) = some (Tok.dd :: rest.map Tok.pos) := by
-  have : classify "--" = .dd := by simp [classify]
+    tokenize false ("--" :: rest) = .toks (Tok.dd :: rest.map Tok.pos) := by
+  have : classify "--" = .dd := by decide +kernel
   simp only [tokenize, this, tokenize_true]
-  simp
+  rfl
 
-theorem classify_groups : classify "--groups" = .opt .groups := by decide +kernel
-theorem classify_success : classify "--success" = .opt .success := by decide +kernel
-theorem classify_failure : classify "--failure" = .opt .failure := by decide +kernel
-theorem classify_dir : classify "--dir" = .opt .dir := by decide +kernel
-theorem classify_log : classify "--log" = .opt .log := by decide +kernel
-theorem classify_logpath : classify "--logpath" = .opt .logpath := by decide +kernel
-
-theorem tokenize_optstr (s : String) (o : OptName) (rest : List String) (h : classify s = .opt o) :
-    tokenize false (s :: rest) = (tokenize false rest).map (Tok.opt o :: ·) := by
+theorem tokenize_optstr (s : String) (o : OptName) (e : Option String) (rest : List String)
+    (h : classify s = .opt o e) :
+    tokenize false (s :: rest) = (tokenize false rest).map (Tok.opt o e :: ·) := by
   simp only [tokenize, h]
 
-theorem tokenize_opt_render (o : Opt) (rest : List String) (h : o.Ok) :
-    tokenize false (o.render ++ rest) = (tokenize false rest).map (o.toks ++ ·) := by
-  cases o with
-  | groups gs =>
-    simp only [Opt.render, Opt.toks, List.cons_append]
-    rw [tokenize_optstr _ _ _ classify_groups, tokenize_plain_list _ _ h]
-    cases tokenize false rest <;> simp
-  | success s =>
-    simp only [Opt.render, Opt.toks, List.cons_append, List.nil_append]
-    rw [tokenize_optstr _ _ _ classify_success, tokenize_pos _ _ h]
-    cases tokenize false rest <;> simp
-  | failure s =>
-    simp only [Opt.render, Opt.toks, List.cons_append, List.nil_append]
-    rw [tokenize_optstr _ _ _ classify_failure, tokenize_pos _ _ h]
-    cases tokenize false rest <;> simp
-  | dir s =>
-    simp only [Opt.render, Opt.toks, List.cons_append, List.nil_append]
-    rw [tokenize_optstr _ _ _ classify_dir, tokenize_pos _ _ h]
-    cases tokenize false rest <;> simp
-  | log s =>
-    simp only [Opt.render, Opt.toks, List.cons_append, List.nil_append]
-    rw [tokenize_optstr _ _ _ classify_log, tokenize_pos _ _ h.1]
-    cases tokenize false rest <;> simp
-  | logpath s =>
-    simp only [Opt.render, Opt.toks, List.cons_append, List.nil_append]
-    rw [tokenize_optstr _ _ _ classify_logpath, tokenize_pos _ _ h]
-    cases tokenize false rest <;> simp
+theorem tokenize_wopt_render (w : WOpt) (rest : List String) (h : w.Ok) :
+    tokenize false (w.render ++ rest) = (tokenize false rest).map (w.toks ++ ·) := by
+  obtain ⟨h1, _⟩ := h
+  cases hj : w.joined with
+  | true =>
+    rw [hj] at h1
+    obtain ⟨v, hv, hc, _⟩ := h1
+    simp only [WOpt.render, WOpt.toks, hj, hv, List.cons_append, List.nil_append]
+    rw [tokenize_optstr _ _ _ _ hc]
+  | false =>
+    rw [hj] at h1
+    obtain ⟨hc, hp⟩ := h1
+    simp only [WOpt.render, WOpt.toks, hj, List.cons_append]
+    rw [tokenize_optstr _ _ _ _ hc, tokenize_plain_list _ _ hp]
+    cases tokenize false rest <;> simp [TokR.map]
 
-theorem tokenize_opts (os : List Opt) (rest : List String) (h : ∀ o ∈ os, o.Ok) :
-    tokenize false (renderOpts os ++ rest) = (tokenize false rest).map (optsToks os ++ ·) := by
-  induction os with
-  | nil => simp [renderOpts, optsToks]
-  | cons o os ih =>
-    have e : renderOpts (o :: os) ++ rest = o.render ++ (renderOpts os ++ rest) := by
+theorem tokenize_opts (ws : List WOpt) (rest : List String) (h : ∀ w ∈ ws, w.Ok) :
+    tokenize false (renderOpts ws ++ rest) = (tokenize false rest).map (optsToks ws ++ ·) := by
+  induction ws with
+  | nil =>
+    simp only [renderOpts, optsToks, List.map_nil, List.flatten_nil, List.nil_append]
+    cases tokenize false rest <;> rfl
+  | cons w ws ih =>
+    have e : renderOpts (w :: ws) ++ rest = w.render ++ (renderOpts ws ++ rest) := by
       simp [renderOpts]
-    rw [e, tokenize_opt_render _ _ (h o (by simp)), ih (fun x hx => h x (by simp [hx]))]
-    cases tokenize false rest <;> simp [optsToks]
+    rw [e, tokenize_wopt_render _ _ (h w (by simp)), ih (fun x hx => h x (by simp [hx]))]
+    cases tokenize false rest <;> simp [optsToks, TokR.map]
 
 /-! ### run -/
+
+def StepR.bind (r : StepR) (f : PSt → StepR) : StepR :=
+  match r with
+  | .stop s => .stop s
+  | .next st => f st
+
+@[simp] theorem StepR.bind_next (st : PSt) (f : PSt → StepR) : (StepR.next st).bind f = f st := rfl
 
 theorem run_append (st : PSt) (a b : List Tok) :
     run st (a ++ b) = (run st a).bind (fun st' => run st' b) := by
@@ -118,94 +122,146 @@ theorem run_append (st : PSt) (a b : List Tok) :
   | cons t ts ih =>
     simp only [List.cons_append, run]
     cases step st t with
-    | none => simp
-    | some st' => simpa using ih st'
+    | stop s => rfl
+    | next st' => simpa using ih st'
 
 /-- Modes in which an option string is handled by `stepIdle` (argparse is between actions or
     inside a greedy `*` match that the option string ends). -/
 def Boundary (m : Mode) : Prop := m = .idle ∨ m = .inGroups ∨ m = .afterName ∨ m = .inCtx
 
-theorem step_opt_of_boundary (st : PSt) (hb : Boundary st.mode) (o : OptName) :
-    step st (.opt o) = stepIdle st (.opt o) := by
-  rcases hb with h | h | h | h <;> simp [step, h]
+theorem step_opt_of_boundary (st : PSt) (hb : Boundary st.mode) (o : OptName) (e : Option String) :
+    step st (.opt o e) = stepOpt st o e := by
+  rcases hb with h | h | h | h <;> simp [step, h, stepIdle]
 
 theorem run_group_values (st : PSt) (hm : st.mode = .inGroups) (acc : List String)
     (hg : st.args.groups = some acc) (gs : List String) :
-    run st (gs.map Tok.pos) = some { st with args := { st.args with groups := some (acc ++ gs) } } := by
+    run st (gs.map Tok.pos) = .next { st with args := { st.args with groups := some (acc ++ gs) } } := by
   induction gs generalizing st acc with
   | nil => simp [run, ← hg]
   | cons g gs ih =>
     simp only [List.map_cons, run]
-    have hs : step st (.pos g) = some { st with args := { st.args with groups := some (acc ++ [g]) } } := by
+    have hs : step st (.pos g) = .next { st with args := { st.args with groups := some (acc ++ [g]) } } := by
       simp [step, hm, hg]
     rw [hs]
     simp only []
     rw [ih _ (by simpa using hm) (acc ++ [g]) (by simp)]
     simp [List.append_assoc]
 
-theorem run_one_arg (st : PSt) (hb : Boundary st.mode) (o : OptName) (ho : o ≠ .groups) (s : String)
-    (a' : Args) (hs : setOpt st.args o s = some a') :
-    run st [.opt o, .pos s] = some { st with mode := .idle, args := a' } := by
-  have h1 : stepIdle st (.opt o) = some { st with mode := .needArg o } := by
-    cases o <;> first | exact absurd rfl ho | rfl
-  have h2 : step { st with mode := .needArg o } (.pos s) = some { st with mode := .idle, args := a' } := by
+/-- One-argument option, value in the next string. -/
+theorem run_one_arg (st : PSt) (hb : Boundary st.mode) (o : OptName)
+    (ho : o ≠ .groups ∧ o ≠ .help ∧ o ≠ .version) (s : String)
+    (a' : Args) (hs : setOpt st.args o s = .ok a') :
+    run st [.opt o none, .pos s] = .next { st with mode := .idle, args := a' } := by
+  have h1 : stepOpt st o none = .next { st with mode := .needArg o } := by
+    cases o <;> first | exact absurd rfl ho.1 | exact absurd rfl ho.2.1 | exact absurd rfl ho.2.2 | rfl
+  have h2 : step { st with mode := .needArg o } (.pos s) = .next { st with mode := .idle, args := a' } := by
     simp [step, hs]
   simp only [run, step_opt_of_boundary st hb, h1, h2]
 
-/-- Running one rendered option from a boundary mode stores it; `--groups` leaves its greedy
-    match open, every other option returns to idle. -/
-theorem run_opt (st : PSt) (hb : Boundary st.mode) (o : Opt) (hok : o.Ok) :
-    run st o.toks =
-      some { st with mode := (if o.isGroups then .inGroups else .idle), args := o.apply st.args } := by
+/-- One-argument option, value joined with `=`. -/
+theorem run_one_arg_joined (st : PSt) (hb : Boundary st.mode) (o : OptName)
+    (ho : o ≠ .groups ∧ o ≠ .help ∧ o ≠ .version) (s : String) (hdd : s ≠ "--")
+    (a' : Args) (hs : setOpt st.args o s = .ok a') :
+    run st [.opt o (some s)] = .next { st with mode := .idle, args := a' } := by
+  have h1 : stepOpt st o (some s) = .next { st with mode := .idle, args := a' } := by
+    cases o <;>
+      first | exact absurd rfl ho.1 | exact absurd rfl ho.2.1 | exact absurd rfl ho.2.2 | simp [stepOpt, hdd, hs]
+  simp only [run, step_opt_of_boundary st hb, h1]
+
+theorem setOpt_of_apply (a : Args) (o : Opt) (s : String) (hv : o.values = [s]) (hg : o.isGroups = false)
+    (hlog : ∀ t, o = .log t → ∃ n, parseInt t = .ok n) :
+    setOpt a o.name s = .ok (o.apply a) := by
   cases o with
-  | groups gs =>
-    have h1 : stepIdle st (.opt .groups) =
-        some { st with mode := .inGroups, args := { st.args with groups := some [] } } := rfl
-    simp only [Opt.toks, run, step_opt_of_boundary st hb, h1]
-    rw [run_group_values _ rfl [] rfl gs]
-    simp [Opt.isGroups, Opt.apply]
-  | success s => exact run_one_arg st hb .success (by decide) s _ rfl
-  | failure s => exact run_one_arg st hb .failure (by decide) s _ rfl
-  | dir s => exact run_one_arg st hb .dir (by decide) s _ rfl
-  | logpath s => exact run_one_arg st hb .logpath (by decide) s _ rfl
-  | log s =>
-    obtain ⟨n, hn⟩ := Option.isSome_iff_exists.mp hok.2
-    have := run_one_arg st hb .log (by decide) s { st.args with log := some n } (by simp [setOpt, hn])
-    simpa [Opt.toks, Opt.isGroups, Opt.apply, hn] using this
+  | groups gs => simp [Opt.isGroups] at hg
+  | success t => simp only [Opt.values, List.cons.injEq, and_true] at hv; subst hv; rfl
+  | failure t => simp only [Opt.values, List.cons.injEq, and_true] at hv; subst hv; rfl
+  | dir t => simp only [Opt.values, List.cons.injEq, and_true] at hv; subst hv; rfl
+  | logpath t => simp only [Opt.values, List.cons.injEq, and_true] at hv; subst hv; rfl
+  | log t =>
+    simp only [Opt.values, List.cons.injEq, and_true] at hv
+    subst hv
+    obtain ⟨n, hn⟩ := hlog t rfl
+    simp [setOpt, Opt.name, Opt.apply, hn]
+
+theorem name_not_special (o : Opt) (hg : o.isGroups = false) :
+    o.name ≠ .groups ∧ o.name ≠ .help ∧ o.name ≠ .version := by
+  cases o <;> simp_all [Opt.name, Opt.isGroups]
+
+/-- Running one written option from a boundary mode stores it; an unjoined `--groups` leaves its
+    greedy match open, every other form returns to idle. -/
+theorem run_wopt (st : PSt) (hb : Boundary st.mode) (w : WOpt) (hok : w.Ok) :
+    run st w.toks =
+      .next { st with mode := (if w.opensGroups then .inGroups else .idle), args := w.opt.apply st.args } := by
+  obtain ⟨h1, hlog⟩ := hok
+  cases hj : w.joined with
+  | true =>
+    rw [hj] at h1
+    obtain ⟨v, hv, _, hdd⟩ := h1
+    simp only [WOpt.toks, hj, hv, WOpt.opensGroups, Bool.not_true, Bool.and_false, Bool.false_eq_true, if_false]
+    cases hg : w.opt.isGroups with
+    | true =>
+      cases ho : w.opt with
+      | groups gs =>
+        rw [ho] at hv
+        simp only [Opt.values] at hv
+        subst hv
+        simp [run, step_opt_of_boundary st hb, stepOpt, Opt.name, Opt.apply, hdd]
+      | _ => rw [ho] at hg; simp [Opt.isGroups] at hg
+    | false =>
+      exact run_one_arg_joined st hb _ (name_not_special _ hg) v hdd _ (setOpt_of_apply _ _ _ hv hg hlog)
+  | false =>
+    rw [hj] at h1
+    simp only [WOpt.toks, hj, WOpt.opensGroups, Bool.not_false, Bool.and_true]
+    cases ho : w.opt with
+    | groups gs =>
+      have h1' : stepOpt st .groups none =
+          .next { st with mode := .inGroups, args := { st.args with groups := some [] } } := rfl
+      simp only [Opt.values, Opt.name, run, step_opt_of_boundary st hb, h1']
+      rw [run_group_values _ rfl [] rfl gs]
+      simp [Opt.isGroups, Opt.apply]
+    | success s => exact run_one_arg st hb .success (by decide) s _ rfl
+    | failure s => exact run_one_arg st hb .failure (by decide) s _ rfl
+    | dir s => exact run_one_arg st hb .dir (by decide) s _ rfl
+    | logpath s => exact run_one_arg st hb .logpath (by decide) s _ rfl
+    | log s =>
+      obtain ⟨n, hn⟩ := hlog s ho
+      have := run_one_arg st hb .log (by decide) s { st.args with log := some n } (by simp [setOpt, hn])
+      simpa [Opt.values, Opt.name, Opt.isGroups, Opt.apply, hn] using this
 
 /-- Mode after a sequence of options, starting from mode `m`. -/
-def modeAfter (m : Mode) (os : List Opt) : Mode :=
-  os.foldl (fun _ o => if o.isGroups then .inGroups else .idle) m
+def modeAfter (m : Mode) (ws : List WOpt) : Mode :=
+  ws.foldl (fun _ w => if w.opensGroups then .inGroups else .idle) m
 
-theorem boundary_modeAfter (m : Mode) (hb : Boundary m) (os : List Opt) : Boundary (modeAfter m os) := by
-  induction os generalizing m with
+theorem boundary_modeAfter (m : Mode) (hb : Boundary m) (ws : List WOpt) : Boundary (modeAfter m ws) := by
+  induction ws generalizing m with
   | nil => exact hb
-  | cons o os ih =>
+  | cons w ws ih =>
     simp only [modeAfter, List.foldl_cons]
     apply ih
-    cases o <;> simp [Opt.isGroups, Boundary]
+    cases w.opensGroups <;> simp [Boundary]
 
-theorem run_opts (st : PSt) (hb : Boundary st.mode) (os : List Opt) (hok : ∀ o ∈ os, o.Ok) :
-    run st (optsToks os) = some { st with mode := modeAfter st.mode os, args := applyOpts st.args os } := by
-  induction os generalizing st with
+theorem run_opts (st : PSt) (hb : Boundary st.mode) (ws : List WOpt) (hok : ∀ w ∈ ws, w.Ok) :
+    run st (optsToks ws) =
+      .next { st with mode := modeAfter st.mode ws, args := applyOpts st.args (ws.map (·.opt)) } := by
+  induction ws generalizing st with
   | nil => simp [optsToks, run, modeAfter, applyOpts]
-  | cons o os ih =>
-    have e : optsToks (o :: os) = o.toks ++ optsToks os := by simp [optsToks]
-    rw [e, run_append, run_opt st hb o (hok o (by simp))]
-    simp only [Option.bind_some]
-    rw [ih _ (by cases o <;> simp [Opt.isGroups, Boundary]) (fun x hx => hok x (by simp [hx]))]
+  | cons w ws ih =>
+    have e : optsToks (w :: ws) = w.toks ++ optsToks ws := by simp [optsToks]
+    rw [e, run_append, run_wopt st hb w (hok w (by simp))]
+    simp only [StepR.bind_next]
+    rw [ih _ (by cases w.opensGroups <;> simp [Boundary]) (fun x hx => hok x (by simp [hx]))]
     simp [modeAfter, applyOpts]
 
 /-- Collecting context arguments. -/
 theorem run_ctx (st : PSt) (hm : st.mode = .afterName ∨ st.mode = .inCtx) (cs : List String) :
     run st (cs.map Tok.pos) =
-      some { st with mode := (if cs = [] then st.mode else .inCtx),
-                     args := { st.args with ctx := st.args.ctx ++ cs } } := by
+      .next { st with mode := (if cs = [] then st.mode else .inCtx),
+                      args := { st.args with ctx := st.args.ctx ++ cs } } := by
   induction cs generalizing st with
   | nil => simp [run]
   | cons c cs ih =>
     simp only [List.map_cons, run]
-    have hs : step st (.pos c) = some { st with mode := .inCtx, args := { st.args with ctx := st.args.ctx ++ [c] } } := by
+    have hs : step st (.pos c) = .next { st with mode := .inCtx, args := { st.args with ctx := st.args.ctx ++ [c] } } := by
       rcases hm with h | h <;> simp [step, h]
     rw [hs]
     simp only []
@@ -243,45 +299,46 @@ theorem erase_dd_of_plain (cs : List String) (h : ∀ s ∈ cs, Plain s) : cs.er
   intro hm
   exact plain_ne_dd (h _ hm) rfl
 
-theorem finish_boundary (st : PSt) (hb : Boundary st.mode) (hn : st.hasName = true) :
+theorem finish_boundary (st : PSt) (hb : Boundary st.mode) (hn : st.hasName = true) (he : st.extras = false) :
     finish st = some { st.args with ctx := st.args.ctx.erase "--" } := by
-  rcases hb with h | h | h | h <;> simp [finish, h, hn]
+  rcases hb with h | h | h | h <;> simp [finish, h, hn, he]
 
-theorem modeAfter_last (m : Mode) (os : List Opt) :
-    modeAfter m os = match os.getLast? with
+theorem modeAfter_last (m : Mode) (ws : List WOpt) :
+    modeAfter m ws = match ws.getLast? with
       | none => m
-      | some o => if o.isGroups then .inGroups else .idle := by
-  induction os generalizing m with
+      | some w => if w.opensGroups then .inGroups else .idle := by
+  induction ws generalizing m with
   | nil => rfl
-  | cons o os ih =>
+  | cons w ws ih =>
     simp only [modeAfter, List.foldl_cons] at ih ⊢
     rw [ih]
-    cases os with
+    cases ws with
     | nil => simp
-    | cons o' os' =>
+    | cons w' ws' =>
       rw [List.getLast?_cons_cons]
-      have : (o' :: os').getLast? = some ((o' :: os').getLast (by simp)) := List.getLast?_eq_some_getLast _
+      have : (w' :: ws').getLast? = some ((w' :: ws').getLast (by simp)) := List.getLast?_eq_some_getLast _
       rw [this]
 
-/-- `pre` does not end with a `--groups` option (whose greedy `*` would swallow the pipeline name). -/
-def NotEndingInGroups (os : List Opt) : Prop :=
-  match os.getLast? with
+/-- `pre` does not end with an unjoined `--groups` option (whose greedy `*` would swallow the
+    pipeline name). -/
+def NotEndingInGroups (ws : List WOpt) : Prop :=
+  match ws.getLast? with
   | none => True
-  | some o => o.isGroups = false
+  | some w => w.opensGroups = false
 
-theorem modeAfter_idle (os : List Opt) (h : NotEndingInGroups os) : modeAfter .idle os = .idle := by
+theorem modeAfter_idle (ws : List WOpt) (h : NotEndingInGroups ws) : modeAfter .idle ws = .idle := by
   rw [modeAfter_last]
   unfold NotEndingInGroups at h
-  cases hl : os.getLast? with
+  cases hl : ws.getLast? with
   | none => rfl
-  | some o => rw [hl] at h; simp [h]
+  | some w => rw [hl] at h; simp [h]
 
 /-- Before the positionals, after any options: argparse is idle or inside `--groups`' match. -/
-theorem modeAfter_idle_or_groups (os : List Opt) :
-    modeAfter .idle os = .idle ∨ modeAfter .idle os = .inGroups := by
+theorem modeAfter_idle_or_groups (ws : List WOpt) :
+    modeAfter .idle ws = .idle ∨ modeAfter .idle ws = .inGroups := by
   rw [modeAfter_last]
-  cases os.getLast? with
+  cases ws.getLast? with
   | none => exact .inl rfl
-  | some o => cases o <;> simp [Opt.isGroups]
+  | some w => cases w.opensGroups <;> simp
 
 end Pypyr.Cli
